@@ -586,7 +586,7 @@ class Namer:
         if let.name is not None:
             return let.name
         name, self.next_let = self._choose_name(
-            self.let_template, self.next_let, self.let_names
+            self.let_template, self.next_let, self._user_names()
         )
         return name
 
@@ -595,9 +595,14 @@ class Namer:
         if register.name is not None:
             return register.name
         name, self.next_register = self._choose_name(
-            self.register_template, self.next_register, self.register_names
+            self.register_template, self.next_register, self._user_names()
         )
         return name
+
+    def _user_names(self):
+        """Lets and registers share one namespace, so a generated name must
+        avoid the user's names of both kinds."""
+        return [*self.let_names, *self.register_names]
 
     def _choose_name(self, template, index, user_names):
         """Choose a new name for some object. Return the name chosen and the
